@@ -18,6 +18,7 @@ class Result:
         self.main = []
         self.flows = []
         self.hidden = set()
+        self.nested = False
     @property
     def seq(self):
         out = list(self.main)
@@ -75,7 +76,10 @@ def ev(n, env, res):
     if t == 'foreign':
         return ev(n['body'], env, res)
     if t == 'footnote':
+        k = len(res.flows)
         flow = ev(n['body'], env, res)
+        if len(res.flows) > k:
+            res.nested = True       # a flow detached inside a detached flow
         res.flows.append(flow)
         return []
     if t == 'heading':
@@ -153,7 +157,11 @@ def ev(n, env, res):
         return ev(n['body'], env, res)
     if t == 'figure':
         out = ev(n['body'], env, res)
-        res.flows.append(ev(n['caption'], env, res))
+        k = len(res.flows)
+        cap = ev(n['caption'], env, res)
+        if len(res.flows) > k:
+            res.nested = True
+        res.flows.append(cap)
         return out
     if t == 'glsdef':
         res.hidden.add(n['short'])
